@@ -13,6 +13,7 @@ import BumpVerif.Gen.FnRawVec
 import BumpVerif.Gen.FnRewind
 import BumpVerif.Gen.FnGlue
 import BumpVerif.Gen.FnChunks
+import BumpVerif.Gen.FnTyped
 import BumpVerif.Gen.FnVec
 import BumpVerif.Gen.FnVecDrain
 import BumpVerif.Gen.FnVecIntoIter
@@ -121,6 +122,43 @@ def main : IO Unit := do
   out := add (firstDiff "dealloc_chunk_list" (sts.map fun s => (tag s, showSO (Gen.Fn.dealloc_chunk_list E s.a.M s.a.chunks s), showSO (Rs.dealloc_chunk_list s.a.chunks s)))) out
   out := add (firstDiff "Drop for Bump" (sts.map fun s => (tag s, (match Gen.Fn.bump_drop E s.a.M s with | (s', .ok _) => s!"ok evs={repr s'.evs}" | _ => "not-ok"), s!"ok evs={repr (dropArena s).evs}"))) out
   out := add (firstDiff "allocated_bytes_including_metadata" (sts.map fun s => (tag s, showSO (Gen.Fn.allocated_bytes_including_metadata E s.a.M s), showSO (s, Outcome.ok (allocatedBytesIncludingMetadata s.a E))))) out
+  -- typed allocation methods: the writes and the closure calls against what the layout-level allocation returns
+  let showT := fun {α : Type} [Repr α] (r : RsT.TS × Outcome α) => match r.2 with
+    | .bad _ => "bad"
+    | o => s!"{showO o} wr={repr r.1.wr} calls={repr r.1.calls} chunks={repr r.1.st.a.chunks} evs={repr r.1.st.evs}"
+  let after := fun {α β : Type} (t : RsT.TS) (r : St × Outcome α) (k : St → α → RsT.TS × Outcome β) => (match r with
+    | (s', .ok p) => k s' p | (s', .err) => ({ t with st := s' }, .err) | (s', .panic) => ({ t with st := s' }, .panic)
+    | (s', .bad w) => ({ t with st := s' }, .bad w) | (s', .envBad) => ({ t with st := s' }, .envBad) : RsT.TS × Outcome β)
+  let tys : List (Nat × Nat) := [(0, 1), (1, 1), (3, 1), (8, 8), (24, 8), (16, 16), (2 ^ 40, 8)]
+  let tcases := sts.flatMap fun s => tys.flatMap fun ty => [0, 1, 3, 7, 2 ^ 30].map fun n => (s, ty, n)
+  let g : Nat → RsT.Val := fun i => 100 + i
+  out := add (firstDiff "alloc_slice_fill_with" (tcases.map fun (s, (esz, eal), n) =>
+    let t : RsT.TS := { st := s, wr := [(1, 1)], calls := [9] }
+    (s!"{tag s} esz={esz} eal={eal} len={n}", showT (Gen.Fn.t_alloc_slice_fill_with E s.a.M esz eal (min n 7) (fun i t => (t, .ok (g i))) t),
+      showT (match arrayLayout esz eal (min n 7) with
+        | none => (t, (Outcome.panic : Outcome (Nat × Nat)))
+        | some total => after t (Gen.Fn.alloc_layout E s.a.M ⟨total, eal⟩ s) fun s' p =>
+            ({ st := s', wr := t.wr ++ (List.range (min n 7)).map (fun i => (p + i * esz, g i)), calls := t.calls ++ List.range (min n 7) }, .ok (p, min n 7)))))) out
+  out := add (firstDiff "try_alloc_slice_fill_with" (tcases.map fun (s, (esz, eal), n) =>
+    let t : RsT.TS := { st := s }
+    (s!"{tag s} esz={esz} eal={eal} len={n} panicAt=2", showT (Gen.Fn.t_try_alloc_slice_fill_with E s.a.M esz eal (min n 7) (fun i t => if i = 2 then (t, .panic) else (t, .ok (g i))) t),
+      showT (match arrayLayout esz eal (min n 7) with
+        | none => (t, (Outcome.err : Outcome (Nat × Nat)))
+        | some total => after t (Gen.Fn.try_alloc_layout E s.a.M ⟨total, eal⟩ s) fun s' p =>
+            if 2 < min n 7 then ({ st := s', wr := [(p, g 0), (p + esz, g 1)], calls := [0, 1, 2] }, .panic)
+            else ({ st := s', wr := (List.range (min n 7)).map (fun i => (p + i * esz, g i)), calls := List.range (min n 7) }, .ok (p, min n 7)))))) out
+  out := add (firstDiff "alloc / try_alloc" ((sts.flatMap fun s => tys.map fun ty => (s, ty)).map fun (s, (esz, eal)) =>
+    let t : RsT.TS := { st := s }
+    (s!"{tag s} esz={esz} eal={eal}", showT (Gen.Fn.t_alloc E s.a.M esz eal 77 t) ++ " | " ++ showT (Gen.Fn.t_try_alloc E s.a.M esz eal 77 t),
+      showT (after t (Gen.Fn.alloc_layout E s.a.M ⟨esz, eal⟩ s) fun s' p => ({ st := s', wr := [(p, 77)], calls := [0] }, Outcome.ok p)) ++ " | " ++
+      showT (after t (Gen.Fn.try_alloc_layout E s.a.M ⟨esz, eal⟩ s) fun s' p => ({ st := s', wr := [(p, 77)], calls := [0] }, Outcome.ok p))))) out
+  out := add (firstDiff "alloc_slice_copy / alloc_str" ((sts.flatMap fun s => tys.flatMap fun ty => [[], [5], [5, 6, 7]].map fun src => (s, ty, src)).map fun (s, (esz, eal), src) =>
+    let t : RsT.TS := { st := s }
+    (s!"{tag s} esz={esz} eal={eal} src={repr src}", showT (Gen.Fn.t_try_alloc_slice_copy E s.a.M esz eal src t) ++ " | " ++ showT (Gen.Fn.t_alloc_str E s.a.M src t),
+      showT (after t (Gen.Fn.try_alloc_layout E s.a.M ⟨esz * src.length, eal⟩ s) fun s' p =>
+        ({ st := s', wr := (List.range src.length).map (fun i => (p + i * esz, src.getD i 0)) }, Outcome.ok (p, src.length))) ++ " | " ++
+      showT (after t (Gen.Fn.alloc_layout E s.a.M ⟨src.length, 1⟩ s) fun s' p =>
+        ({ st := s', wr := (List.range src.length).map (fun i => (p + i, src.getD i 0)) }, Outcome.ok (p, src.length)))))) out
   -- dealloc / shrink / grow of the newest block of the newest chunk
   let blocks := sts.filterMap fun s => match s.a.chunks with
     | c :: _ => if c.ptr < c.footer then some (s, c.ptr, c.footer - c.ptr) else none
